@@ -46,6 +46,17 @@ func ReplayBegins(w *ev.Writer, o Opts) error {
 		}
 		switch kind {
 		case "Decode":
+			if rcp, ok := b["recipe"]; ok {
+				var rc bigRecipe
+				raw, _ := json.Marshal(rcp)
+				if err := json.Unmarshal(raw, &rc); err != nil {
+					return err
+				}
+				if err := execBig(r, rc, site == "Decoder.Unmarshal"); err != nil {
+					return err
+				}
+				continue
+			}
 			name := str("type")
 			t, ok := tlbx.Registry[name]
 			if !ok {
